@@ -40,6 +40,21 @@ def run_case(case):
         ev = w.call(name, a, rng)
         if k >= log_from:
             evs.append(ev)
+    # closing call of every history: ns.clear() + reconstruct_taxon_namespace() on one list, preferably one that is
+    # the only user of its namespace (SoleUser in spec/Containers.tla; otherwise the judge files the call as
+    # outside-precondition drift).  The model enables this action rarely in its small universes.
+    u = w.project()
+    def sole(l):
+        L = u["lists"][l - 1]
+        n = L["ns"]
+        return (all(o["ns"] != n for j, o in enumerate(u["lists"]) if j != l - 1) and all(m["ns"] != n for m in u["mats"])
+                and all(a["ns"] != n and a["sd"] != n for a in u["arrs"]) and u["ds"]["att"] != n
+                and all(t["ns"] != n for j, t in enumerate(u["trees"]) if (j + 1) not in L["trees"]))
+    if u["lists"] and path:
+        cands = [l for l in range(1, len(u["lists"]) + 1) if sole(l) and u["lists"][l - 1]["trees"]]
+        if cands:
+            sd = case.get("seed", 0)
+            evs.append(w.call("TLClearReconstruct", {"l": cands[sd % len(cands)], "unify": bool((sd // 7) % 2)}, rng, pre=u))
     return evs
 
 
